@@ -34,6 +34,10 @@ pub fn run(ctx: &mut Ctx) {
         // malformed plaintext: a retrievable status 11 / 12 response
         vec![TOp::NewRequest(0), TOp::DeliverReq(Delivery::CraftedNotCbor), TOp::NextPayload, TOp::Ready, TOp::Retrieve],
         vec![TOp::NewRequest(0), TOp::DeliverReq(Delivery::CraftedNotStruct), TOp::Ready, TOp::Retrieve, TOp::Ready],
+        vec![TOp::NewRequest(0), TOp::DeliverReq(Delivery::CraftedEmpty), TOp::NextPayload, TOp::Ready, TOp::Retrieve, TOp::Retrieve],
+        // signatures handed over in DER form are attached as they are
+        vec![TOp::Prepare(vec![0], false), TOp::NextPayload, TOp::SubmitDer, TOp::Ready, TOp::Retrieve],
+        vec![TOp::Prepare(vec![0, 1, 2], false), TOp::SubmitDer, TOp::Submit(true), TOp::SubmitDer, TOp::Ready, TOp::Retrieve, TOp::DeliverResp(Delivery::Latest)],
         // multi-document signing order and pairing
         vec![TOp::Prepare(vec![0, 1, 2], false), TOp::NextPayload, TOp::Submit(true), TOp::Ready, TOp::NextPayload, TOp::Submit(true),
              TOp::NextPayload, TOp::Submit(true), TOp::NextPayload, TOp::Ready, TOp::Retrieve, TOp::Retrieve, TOp::Ready],
